@@ -615,4 +615,433 @@ Section ResProofs.
     - reflexivity.
     - intros r Hin. pose proof (forallb_In _ _ Hr r Hin) as E. apply Nat.eqb_eq in E. lia.
   Qed.
+
+  (* ============================================ _split_series on a rendered file *)
+  Hypothesis vprint_exp : forall v, has_exp (vprint v) = true.
+  Hypothesis vprint_noT : forall v, forallb (fun c => negb (Ascii.eqb c "T"%char)) (vprint v) = true.
+
+  Definition noT (c : ascii) : bool := negb (Ascii.eqb c "T"%char).
+  Definition noE (c : ascii) : bool := negb (Ascii.eqb c "E"%char).
+
+  Lemma contains_noT : forall l, forallb noT l = true -> contains (S "TOTALTIME") l = false.
+  Proof.
+    induction l as [|c l IH]; intros H; [reflexivity|].
+    simpl in H. apply andb_true_iff in H. destruct H as [Hc Hl].
+    cbn [contains]. rewrite IH by exact Hl. rewrite orb_false_r.
+    unfold noT in Hc. apply negb_true_iff in Hc.
+    change (S "TOTALTIME") with ("T"%char :: S "OTALTIME"). cbn [prefixb].
+    rewrite Ascii.eqb_sym, Hc. reflexivity.
+  Qed.
+
+  Lemma has_exp_noE : forall l, forallb noE l = true -> has_exp l = false.
+  Proof.
+    induction l as [|c l IH]; intros H; [reflexivity|].
+    simpl in H. apply andb_true_iff in H. destruct H as [Hc Hl].
+    cbn [has_exp]. rewrite IH by exact Hl. rewrite orb_false_r.
+    unfold noE in Hc. apply negb_true_iff in Hc. unfold exp_at. rewrite Hc. reflexivity.
+  Qed.
+
+  Lemma skip_char_app : forall ch s b, s <> [] -> skip_char ch s = [] \/ skip_char ch (s ++ b) = skip_char ch s ++ b.
+  Proof.
+    intros ch [|c s] b H; [contradiction|]. simpl. destruct (Ascii.eqb c ch); [|right; reflexivity].
+    right. reflexivity.
+  Qed.
+
+  Lemma exp_at_app : forall a b, exp_at a = true -> exp_at (a ++ b) = true.
+  Proof.
+    intros [|c r] b H; [discriminate|]. simpl in *. apply andb_true_iff in H. destruct H as [Hc H].
+    rewrite Hc. simpl.
+    assert (forall ch s, skip_char ch s <> [] -> skip_char ch (s ++ b) = skip_char ch s ++ b) as HS.
+    { intros ch [|x s] Hs; [contradiction|]. simpl in *. destruct (Ascii.eqb x ch); reflexivity. }
+    destruct (skip_char "-" (skip_char "+" r)) as [|d rest] eqn:E; [discriminate|].
+    assert (skip_char "+" r <> []) as H1.
+    { intros E1. rewrite E1 in E. discriminate E. }
+    rewrite (HS "+"%char r H1). rewrite HS by (rewrite E; discriminate). rewrite E. exact H.
+  Qed.
+
+  Lemma has_exp_app_l : forall a b, has_exp a = true -> has_exp (a ++ b) = true.
+  Proof.
+    induction a as [|c a IH]; intros b H; [discriminate|].
+    cbn [has_exp] in H. apply orb_true_iff in H. change ((c :: a) ++ b) with (c :: (a ++ b)).
+    cbn [has_exp]. destruct H as [H|H].
+    - pose proof (exp_at_app (c :: a) b H) as E. change ((c :: a) ++ b) with (c :: (a ++ b)) in E.
+      rewrite E. reflexivity.
+    - rewrite (IH b H). apply orb_true_r.
+  Qed.
+
+  Lemma forallb_unwords (P : ascii -> bool) : forall ts,
+    P " "%char = true -> (forall t, In t ts -> forallb P t = true) -> forallb P (unwords ts) = true.
+  Proof.
+    intros ts Hsp. unfold unwords. induction ts as [|t ts IH]; intros H; [reflexivity|].
+    destruct ts as [|t' ts'].
+    - simpl. apply H. left. reflexivity.
+    - change (join sp (t :: t' :: ts')) with (t ++ sp ++ join sp (t' :: ts')).
+      rewrite !forallb_app. rewrite (H t (or_introl eq_refl)). simpl. rewrite Hsp.
+      apply IH. intros x Hx. apply H. right. exact Hx.
+  Qed.
+
+  (* characters of the lines that are not names: digits, '-', blanks, pad, value tokens *)
+  Definition plain_pred (P : ascii -> bool) : Prop :=
+    (forall c, numch c = true -> P c = true) /\ (forall c, is_ws c = true -> P c = true).
+
+  Lemma noT_plain : plain_pred noT.
+  Proof.
+    split; intros c H; unfold noT; destruct (Ascii.eqb_spec c "T"%char); try reflexivity; subst; discriminate H.
+  Qed.
+  Lemma noE_plain : plain_pred noE.
+  Proof.
+    split; intros c H; unfold noE; destruct (Ascii.eqb_spec c "E"%char); try reflexivity; subst; discriminate H.
+  Qed.
+
+  Lemma count_line_pred : forall P pad (g : list nat),
+    plain_pred P -> forallb is_ws pad = true -> forallb P (unwords (map print_nat g) ++ pad) = true.
+  Proof.
+    intros P pad g [HP1 HP2] Hpad. rewrite forallb_app. apply andb_true_iff. split.
+    - apply forallb_unwords; [apply HP2; reflexivity|]. intros t Ht. apply in_map_iff in Ht.
+      destruct Ht as [n [<- _]]. apply (forallb_impl numch); [exact HP1|apply print_Z_numch].
+    - apply (forallb_impl is_ws); [exact HP2|exact Hpad].
+  Qed.
+
+  Definition count_lines (lay : layout) (s : section) : list str :=
+    map (fun g => unwords (map print_nat g) ++ l_pad lay) (wrap (l_wc lay) (map snd (s_vars V s))).
+  Definition data_lines (lay : layout) (s : section) : list str :=
+    flat_map (entity_lines V vprint lay) (s_rows V s).
+
+  Lemma render_section_parts : forall lay s,
+    render_section V vprint lay s = count_lines lay s ++ map fst (s_vars V s) ++ data_lines lay s.
+  Proof. reflexivity. Qed.
+
+  Lemma count_lines_pred : forall P lay s, plain_pred P -> wf_layout lay = true ->
+    forall l, In l (count_lines lay s) -> forallb P l = true.
+  Proof.
+    intros P lay s HP Hl l Hin. unfold count_lines in Hin. apply in_map_iff in Hin.
+    destruct Hin as [g [<- _]]. apply count_line_pred; [exact HP|].
+    unfold wf_layout in Hl. rewrite !andb_true_iff in Hl. tauto.
+  Qed.
+
+  Lemma count_lines_not_name' : forall lay s, wf_layout lay = true ->
+    forallb (fun l => negb (is_name_line l)) (count_lines lay s) = true.
+  Proof.
+    intros lay s Hl. apply forallb_forall. intros l Hin.
+    unfold count_lines in Hin. apply in_map_iff in Hin. destruct Hin as [g [<- Hg]].
+    unfold wf_layout in Hl. rewrite !andb_true_iff in Hl. destruct Hl as [[Hwc _] _].
+    apply Nat.ltb_lt in Hwc.
+    pose proof (wrap_nonempty _ _ _ Hwc Hg) as Hne. destruct g as [|n g]; [contradiction|].
+    rewrite is_name_line_app.
+    - simpl map. rewrite is_name_line_unwords by (apply token_nonempty; apply print_nat_token).
+      rewrite numch_head_not_name; [reflexivity|apply print_Z_numch].
+    - simpl map. intros E. pose proof (unwords_head_ok (print_nat n :: map print_nat g)) as H.
+      rewrite E in H. simpl in H. assert (false = true) by (apply H; [discriminate|apply (nat_tokens (n :: g))]).
+      discriminate.
+  Qed.
+
+  Lemma in_pad_last : forall pad (ls : list str) x,
+    In x (pad_last pad ls) -> exists l, In l ls /\ (x = l \/ x = l ++ pad).
+  Proof.
+    induction ls as [|l ls IH]; intros x H; [contradiction|].
+    destruct ls as [|l' ls'].
+    - destruct H as [<-|[]]. exists l. split; [left; reflexivity|right; reflexivity].
+    - change (pad_last pad (l :: l' :: ls')) with (l :: pad_last pad (l' :: ls')) in H.
+      destruct H as [<-|H].
+      + exists l. split; [left; reflexivity|left; reflexivity].
+      + destruct (IH x H) as [y [Hy Hx]]. exists y. split; [right; exact Hy|exact Hx].
+  Qed.
+
+  Lemma pad_last_snoc : forall pad (ls : list str) l, pad_last pad (ls ++ [l]) = ls ++ [l ++ pad].
+  Proof.
+    induction ls as [|a ls IH]; intros l; [reflexivity|].
+    destruct ls as [|b ls'].
+    - reflexivity.
+    - change ((a :: b :: ls') ++ [l]) with (a :: ((b :: ls') ++ [l])).
+      change (pad_last pad (a :: (b :: ls') ++ [l])) with (a :: pad_last pad ((b :: ls') ++ [l])).
+      rewrite IH. reflexivity.
+  Qed.
+
+  Lemma value_line_facts : forall (g : list V) pad, g <> [] -> forallb is_ws pad = true ->
+    is_name_line (unwords (map vprint g) ++ pad) = false
+    /\ has_exp (unwords (map vprint g) ++ pad) = true
+    /\ forallb noT (unwords (map vprint g) ++ pad) = true.
+  Proof.
+    intros [|v g] pad Hne Hpad; [contradiction|]. simpl map.
+    assert (unwords (vprint v :: map vprint g) <> []) as Hu.
+    { intros E. pose proof (unwords_head_ok (vprint v :: map vprint g)) as H. rewrite E in H.
+      assert (false = true) by (apply H; [discriminate|apply (vtokens (v :: g))]). discriminate. }
+    repeat split.
+    - rewrite is_name_line_app by exact Hu.
+      rewrite is_name_line_unwords by (apply token_nonempty; apply vprint_token).
+      apply vprint_not_name.
+    - apply has_exp_app_l. unfold unwords. destruct (map vprint g) as [|t ts].
+      + simpl. apply vprint_exp.
+      + change (join sp (vprint v :: t :: ts)) with (vprint v ++ sp ++ join sp (t :: ts)).
+        apply has_exp_app_l. apply vprint_exp.
+    - rewrite forallb_app. apply andb_true_iff. split.
+      + apply forallb_unwords; [reflexivity|]. intros t [<-|Ht]; [apply vprint_noT|].
+        apply in_map_iff in Ht. destruct Ht as [v' [<- _]]. apply vprint_noT.
+      + apply (forallb_impl is_ws); [apply noT_plain|exact Hpad].
+  Qed.
+
+  Lemma entity_lines_facts : forall lay (r : row V), wf_layout lay = true ->
+    forall l, In l (entity_lines V vprint lay r) ->
+      is_name_line l = false /\ forallb noT l = true.
+  Proof.
+    intros lay r Hl l Hin. unfold wf_layout in Hl. rewrite !andb_true_iff in Hl.
+    destruct Hl as [[_ Hw] Hpad]. apply Nat.ltb_lt in Hw.
+    unfold entity_lines in Hin. destruct Hin as [<-|Hin].
+    - split.
+      + rewrite is_name_line_app by (apply token_nonempty; apply print_Z_token).
+        apply numch_head_not_name. apply print_Z_numch.
+      + rewrite forallb_app. apply andb_true_iff. split.
+        * apply (forallb_impl numch); [apply noT_plain|apply print_Z_numch].
+        * apply (forallb_impl is_ws); [apply noT_plain|exact Hpad].
+    - apply in_pad_last in Hin. destruct Hin as [x [Hx Hl]].
+      apply in_map_iff in Hx. destruct Hx as [g [<- Hg]].
+      assert (g <> []) as Hne by (apply (wrap_nonempty _ _ _ Hw Hg)).
+      destruct Hl as [->| ->].
+      + rewrite <- (app_nil_r (unwords (map vprint g))).
+        destruct (value_line_facts g [] Hne eq_refl) as [H1 [_ H3]]. split; assumption.
+      + destruct (value_line_facts g (l_pad lay) Hne Hpad) as [H1 [_ H3]]. split; assumption.
+  Qed.
+
+  Lemma data_lines_facts : forall lay s, wf_layout lay = true ->
+    forall l, In l (data_lines lay s) -> is_name_line l = false /\ forallb noT l = true.
+  Proof.
+    intros lay s Hl l Hin. unfold data_lines in Hin. apply in_flat_map in Hin.
+    destruct Hin as [r [_ Hin]]. apply (entity_lines_facts lay r Hl l Hin).
+  Qed.
+
+  Lemma sum_pos_of_vars : forall s : section, wf_section V s = true -> 0 < sum (map snd (s_vars V s)).
+  Proof.
+    intros s H. unfold wf_section in H. rewrite !andb_true_iff in H. destruct H as [[[H0 Hv] _] _].
+    destruct (s_vars V s) as [|v vs]; [discriminate H0|]. simpl in *.
+    apply andb_true_iff in Hv. destruct Hv as [Hv _]. apply andb_true_iff in Hv.
+    destruct Hv as [_ Hv]. apply Nat.ltb_lt in Hv. lia.
+  Qed.
+
+  Lemma data_lines_ends : forall lay s, wf_layout lay = true -> wf_section V s = true ->
+    (exists x rest, data_lines lay s = x :: rest /\ is_name_line x = false)
+    /\ (exists D l, data_lines lay s = D ++ [l] /\ has_exp l = true).
+  Proof.
+    intros lay s Hl Hs. pose proof (sum_pos_of_vars s Hs) as Hpos.
+    pose proof Hl as Hl'. unfold wf_layout in Hl'. rewrite !andb_true_iff in Hl'.
+    destruct Hl' as [[_ Hw] Hpad]. apply Nat.ltb_lt in Hw.
+    unfold wf_section in Hs. rewrite !andb_true_iff in Hs. destruct Hs as [[_ Hr0] Hr].
+    unfold data_lines. split.
+    - destruct (s_rows V s) as [|r rows]; [discriminate Hr0|].
+      cbn [flat_map]. unfold entity_lines at 1. eexists. eexists. split; [reflexivity|].
+      rewrite is_name_line_app by (apply token_nonempty; apply print_Z_token).
+      apply numch_head_not_name. apply print_Z_numch.
+    - assert (s_rows V s <> []) as Hne by (destruct (s_rows V s); [discriminate Hr0|discriminate]).
+      destruct (exists_last Hne) as [rows [r E]]. rewrite E in *.
+      rewrite flat_map_app. cbn [flat_map]. rewrite app_nil_r.
+      assert (snd r <> []) as Hv.
+      { rewrite forallb_app in Hr. apply andb_true_iff in Hr. destruct Hr as [_ Hr]. simpl in Hr.
+        rewrite andb_true_r in Hr. apply Nat.eqb_eq in Hr. destruct (snd r); [simpl in Hr; lia|discriminate]. }
+      assert (wrap (l_w lay) (snd r) <> []) as Hwne.
+      { intros E'. apply wrap_nil_iff in E'. contradiction. }
+      destruct (exists_last Hwne) as [gs [g Eg]].
+      unfold entity_lines. rewrite Eg. rewrite map_app. simpl map. rewrite pad_last_snoc.
+      exists (flat_map (entity_lines V vprint lay) rows
+              ++ (print_Z (fst r) ++ l_pad lay) :: map (fun g0 => unwords (map vprint g0)) gs).
+      exists (unwords (map vprint g) ++ l_pad lay). split.
+      + unfold entity_lines. rewrite <- !app_assoc. reflexivity.
+      + assert (In g (wrap (l_w lay) (snd r))) as Hg by (rewrite Eg; apply in_or_app; right; left; reflexivity).
+        apply (value_line_facts g (l_pad lay) (wrap_nonempty _ _ _ Hw Hg) Hpad).
+  Qed.
+
+  Lemma names_facts : forall s : section, wf_section V s = true ->
+    forallb is_name_line (map fst (s_vars V s)) = true
+    /\ (exists x rest, map fst (s_vars V s) = x :: rest /\ is_name_line x = true)
+    /\ (forall l, In l (map fst (s_vars V s)) -> contains (S "TOTALTIME") l = false).
+  Proof.
+    intros s H. unfold wf_section in H. rewrite !andb_true_iff in H. destruct H as [[[H0 Hv] _] _].
+    assert (forall l, In l (map fst (s_vars V s)) -> name_ok_res l = true) as HN.
+    { intros l Hl. apply in_map_iff in Hl. destruct Hl as [v [<- Hin]].
+      pose proof (forallb_In _ _ Hv v Hin) as E. apply andb_true_iff in E. tauto. }
+    repeat split.
+    - apply forallb_forall. intros l Hl. apply (name_ok_token _ (HN l Hl)).
+    - destruct (s_vars V s) as [|v vs]; [discriminate H0|]. simpl map. eexists. eexists.
+      split; [reflexivity|]. apply (name_ok_token _ (HN (fst v) (or_introl eq_refl))).
+    - intros l Hl. specialize (HN l Hl). unfold name_ok_res in HN. rewrite !andb_true_iff in HN.
+      destruct HN as [_ HN]. apply negb_true_iff in HN. exact HN.
+  Qed.
+
+  Lemma existsb_false {A} (f : A -> bool) l : (forall x, In x l -> f x = false) -> existsb f l = false.
+  Proof.
+    induction l as [|a l IH]; intros H; [reflexivity|]. simpl.
+    rewrite (H a (or_introl eq_refl)), IH; [reflexivity|]. intros x Hx. apply H. right. exact Hx.
+  Qed.
+
+  Lemma firstn_app_exact {A} (a b : list A) : firstn (length a) (a ++ b) = a.
+  Proof. rewrite firstn_app, firstn_all, Nat.sub_diag. simpl. apply app_nil_r. Qed.
+  Lemma skipn_app_exact {A} (a b : list A) : skipn (length a) (a ++ b) = b.
+  Proof. rewrite skipn_app, skipn_all, Nat.sub_diag. reflexivity. Qed.
+
+  Lemma section_no_totaltime : forall lay s, wf_layout lay = true -> wf_section V s = true ->
+    forall l, In l (render_section V vprint lay s) -> contains (S "TOTALTIME") l = false.
+  Proof.
+    intros lay s Hl Hs l Hin. rewrite render_section_parts in Hin.
+    apply in_app_or in Hin. destruct Hin as [Hin|Hin].
+    - apply contains_noT. apply (count_lines_pred noT lay s noT_plain Hl l Hin).
+    - apply in_app_or in Hin. destruct Hin as [Hin|Hin].
+      + apply (names_facts s Hs). exact Hin.
+      + apply contains_noT. apply (data_lines_facts lay s Hl l Hin).
+  Qed.
+
+  Definition header_len (lay : layout) : nat :=
+    match l_header lay with HOld => 3 | H2 _ _ => 11 end.
+
+  Lemma header_detect : forall lay c, wf_layout lay = true -> wf_content V c = true ->
+    (if existsb (contains (S "TOTALTIME")) (render_res V vprint lay c) then 11 else 3) = header_len lay
+    /\ length (header_lines V lay c) = header_len lay.
+  Proof.
+    intros lay c Hl Hc. unfold wf_content in Hc. apply andb_true_iff in Hc. destruct Hc as [Hn He].
+    unfold header_len, render_res, header_lines. destruct (l_header lay) as [|comment ttime].
+    - split; [|reflexivity]. rewrite existsb_false; [reflexivity|].
+      intros l Hin. apply in_app_or in Hin. destruct Hin as [Hin|Hin].
+      + destruct Hin as [<-|[<-|[<-|[]]]]; [reflexivity| |];
+          apply contains_noT;
+          (apply forallb_unwords; [reflexivity|]; intros t [<-|[<-|[]]];
+           apply (forallb_impl numch); try apply noT_plain; apply print_Z_numch).
+      + apply in_app_or in Hin. destruct Hin as [Hin|Hin].
+        * apply (section_no_totaltime lay _ Hl Hn l Hin).
+        * destruct (c_elemental V c) as [s|]; [|contradiction].
+          apply (section_no_totaltime lay s Hl He l Hin).
+    - split; [|reflexivity].
+      assert (existsb (contains (S "TOTALTIME"))
+                (([S "*fstrresult 2.0"; S "*comment"; comment; S "*global"; S "1"; S "1 "; S "TOTALTIME";
+                   ttime ++ S " "; S "*data"] ++
+                  [unwords [print_nat (length (s_rows V (c_nodal V c)));
+                            print_nat match c_elemental V c with
+                                      | Some s => length (s_rows V s)
+                                      | None => l_nelem lay
+                                      end];
+                   unwords [print_nat (length (s_vars V (c_nodal V c))); print_nat (n_vars V (c_elemental V c))]])
+                 ++ render_section V vprint lay (c_nodal V c)
+                 ++ match c_elemental V c with Some s => render_section V vprint lay s | None => [] end)
+              = true) as ->; [|reflexivity].
+      apply existsb_exists. exists (S "TOTALTIME"). split; [|reflexivity].
+      apply in_or_app. left. apply in_or_app. left. simpl. tauto.
+  Qed.
+
+  Lemma split_body_one : forall CN NN DN : list str,
+    forallb (fun l => negb (is_name_line l)) CN = true ->
+    forallb is_name_line NN = true -> NN <> [] ->
+    forallb (fun l => negb (is_name_line l)) DN = true -> DN <> [] ->
+    split_body (CN ++ NN ++ DN) = Ok (CN ++ NN ++ DN, None).
+  Proof.
+    intros CN NN DN HCN HNN HNN0 HDN HDN0. unfold split_body.
+    destruct NN as [|xn NN']; [contradiction|]. destruct DN as [|yd DN']; [contradiction|].
+    destruct (take_while_app (fun l => negb (is_name_line l)) CN ((xn :: NN') ++ yd :: DN') HCN) as [T1 D1].
+    { simpl in *. apply andb_true_iff in HNN. destruct HNN as [H _]. rewrite H. reflexivity. }
+    rewrite D1. cbn [app]. change (xn :: NN' ++ yd :: DN') with ((xn :: NN') ++ yd :: DN').
+    destruct (take_while_app is_name_line (xn :: NN') (yd :: DN') HNN) as [T2 D2].
+    { simpl in HDN. apply andb_true_iff in HDN. destruct HDN as [H _]. apply negb_true_iff in H. exact H. }
+    rewrite D2.
+    destruct (take_while_app (fun l => negb (is_name_line l)) (yd :: DN') [] HDN I) as [_ D3].
+    rewrite app_nil_r in D3. rewrite D3. reflexivity.
+  Qed.
+
+  Lemma split_body_two : forall (CN NN D : list str) (lastl : str) (CE NE DE : list str),
+    forallb (fun l => negb (is_name_line l)) CN = true ->
+    forallb is_name_line NN = true -> NN <> [] ->
+    forallb (fun l => negb (is_name_line l)) (D ++ [lastl]) = true -> has_exp lastl = true ->
+    forallb (fun l => negb (is_name_line l)) CE = true ->
+    forallb (fun l => negb (has_exp l)) CE = true ->
+    forallb is_name_line NE = true -> NE <> [] ->
+    split_body ((CN ++ NN ++ D ++ [lastl]) ++ CE ++ NE ++ DE)
+    = Ok (CN ++ NN ++ D ++ [lastl], Some (CE ++ NE ++ DE)).
+  Proof.
+    intros CN NN D lastl CE NE DE HCN HNN HNN0 HDN Hexp HCE HCEx HNE HNE0.
+    set (DN := D ++ [lastl]) in *.
+    assert (exists yd DN', DN = yd :: DN') as [yd [DN' EDN]].
+    { unfold DN. destruct D; simpl; eexists; eexists; reflexivity. }
+    unfold split_body.
+    destruct NN as [|xn NN']; [contradiction|]. destruct NE as [|xe NE']; [contradiction|].
+    set (not_name := fun l : str => negb (is_name_line l)) in *.
+    set (body := (CN ++ (xn :: NN') ++ DN) ++ CE ++ (xe :: NE') ++ DE).
+    assert (body = CN ++ ((xn :: NN') ++ DN ++ CE ++ (xe :: NE') ++ DE)) as B1
+      by (unfold body; rewrite <- !app_assoc; reflexivity).
+    destruct (take_while_app not_name CN ((xn :: NN') ++ DN ++ CE ++ (xe :: NE') ++ DE) HCN) as [T1 D1].
+    { simpl in *. apply andb_true_iff in HNN. destruct HNN as [H _]. unfold not_name. rewrite H. reflexivity. }
+    rewrite <- B1 in T1, D1. rewrite T1, D1. cbn [app].
+    change (xn :: NN' ++ DN ++ CE ++ xe :: NE' ++ DE) with ((xn :: NN') ++ DN ++ CE ++ (xe :: NE') ++ DE).
+    destruct (take_while_app is_name_line (xn :: NN') (DN ++ CE ++ (xe :: NE') ++ DE) HNN) as [T2 D2].
+    { rewrite EDN. simpl. rewrite EDN in HDN. simpl in HDN. apply andb_true_iff in HDN.
+      destruct HDN as [H _]. apply negb_true_iff in H. exact H. }
+    rewrite T2, D2.
+    destruct (take_while_app not_name (DN ++ CE) ((xe :: NE') ++ DE)) as [T3 D3].
+    { rewrite forallb_app, HDN, HCE. reflexivity. }
+    { simpl in *. apply andb_true_iff in HNE. destruct HNE as [H _]. unfold not_name. rewrite H. reflexivity. }
+    rewrite <- app_assoc in T3, D3. rewrite T3, D3. cbn [app].
+    assert (length CN + length (xn :: NN') + length (DN ++ CE)
+            = length (CN ++ (xn :: NN') ++ DN ++ CE)) as K2 by (rewrite !app_length; lia).
+    rewrite K2.
+    assert (body = (CN ++ (xn :: NN') ++ DN ++ CE) ++ ((xe :: NE') ++ DE)) as B3
+      by (unfold body; rewrite <- !app_assoc; reflexivity).
+    assert (take_while (fun l => negb (has_exp l))
+                       (rev (firstn (length (CN ++ (xn :: NN') ++ DN ++ CE)) body)) = rev CE) as HB.
+    { rewrite B3. rewrite firstn_app_exact.
+      assert (CN ++ (xn :: NN') ++ DN ++ CE = (CN ++ (xn :: NN') ++ D) ++ [lastl] ++ CE) as B4
+        by (unfold DN; rewrite <- !app_assoc; reflexivity).
+      rewrite B4. rewrite (rev_app_distr (CN ++ (xn :: NN') ++ D)). rewrite (rev_app_distr [lastl] CE).
+      destruct (take_while_app (fun l => negb (has_exp l)) (rev CE)
+                               (rev [lastl] ++ rev (CN ++ (xn :: NN') ++ D))) as [T4 _].
+      { apply forallb_rev. exact HCEx. }
+      { simpl. rewrite Hexp. reflexivity. }
+      rewrite <- app_assoc. exact T4. }
+    rewrite HB. rewrite rev_length.
+    assert (Nat.leb (length (CN ++ (xn :: NN') ++ DN ++ CE)) (length CE) = false) as ->.
+    { apply Nat.leb_gt. rewrite !app_length. rewrite EDN. simpl. lia. }
+    assert (length (CN ++ (xn :: NN') ++ DN ++ CE) - length CE = length (CN ++ (xn :: NN') ++ DN)) as ->
+      by (rewrite !app_length; lia).
+    unfold body. rewrite firstn_app_exact, skipn_app_exact. reflexivity.
+  Qed.
+
+  Theorem split_series_render : forall lay c, wf_layout lay = true -> wf_content V c = true ->
+    split_series (render_res V vprint lay c)
+    = Ok (render_section V vprint lay (c_nodal V c),
+          option_map (render_section V vprint lay) (c_elemental V c)).
+  Proof.
+    intros lay c Hl Hc. destruct (header_detect lay c Hl Hc) as [Hd Hlen].
+    pose proof Hc as Hc'. unfold wf_content in Hc'. apply andb_true_iff in Hc'. destruct Hc' as [Hn He].
+    unfold split_series. rewrite Hd.
+    assert (skipn (header_len lay) (render_res V vprint lay c)
+            = render_section V vprint lay (c_nodal V c)
+              ++ match c_elemental V c with Some s => render_section V vprint lay s | None => [] end) as ->.
+    { unfold render_res. rewrite <- Hlen. apply skipn_app_exact. }
+    set (sn := c_nodal V c) in *.
+    rewrite (render_section_parts lay sn).
+    destruct (names_facts sn Hn) as [HNN [[xn [restn [ENN HxN]]] _]].
+    destruct (data_lines_ends lay sn Hl Hn) as [_ [D [lastl [EDN Hexp]]]].
+    pose proof (count_lines_not_name' lay sn Hl) as HCN.
+    assert (forallb (fun l => negb (is_name_line l)) (data_lines lay sn) = true) as HDN.
+    { apply forallb_forall. intros l Hin. rewrite (proj1 (data_lines_facts lay sn Hl l Hin)). reflexivity. }
+    assert (map fst (s_vars V sn) <> []) as HNN0 by (rewrite ENN; discriminate).
+    destruct (c_elemental V c) as [se|] eqn:Ee.
+    - rewrite (render_section_parts lay se).
+      destruct (names_facts se He) as [HNE [[xe [reste [ENE HxE]]] _]].
+      assert (map fst (s_vars V se) <> []) as HNE0 by (rewrite ENE; discriminate).
+      rewrite EDN in *. simpl option_map. rewrite (render_section_parts lay se).
+      apply split_body_two; try assumption.
+      + apply count_lines_not_name'. exact Hl.
+      + apply forallb_forall. intros l Hin. rewrite has_exp_noE; [reflexivity|].
+        apply (count_lines_pred noE lay se noE_plain Hl l Hin).
+    - rewrite app_nil_r. simpl option_map. apply split_body_one; try assumption.
+      rewrite EDN. destruct D; discriminate.
+  Qed.
+
+  Theorem res_roundtrip : forall lay c types ne,
+    wf_layout lay = true -> wf_content V c = true ->
+    (forall s, c_elemental V c = Some s -> ne = length (s_rows V s)) ->
+    parse_res V vparse (length (s_rows V (c_nodal V c))) ne types (render_res V vprint lay c)
+    = Ok (expected V types c).
+  Proof.
+    intros lay c types ne Hl Hc Hne. unfold parse_res.
+    rewrite (split_series_render lay c Hl Hc). simpl bind. simpl fst. simpl snd.
+    pose proof Hc as Hc'. unfold wf_content in Hc'. apply andb_true_iff in Hc'. destruct Hc' as [Hn He].
+    rewrite (parse_section_ok lay (c_nodal V c) Hl Hn). simpl bind.
+    unfold expected. destruct (c_elemental V c) as [se|] eqn:E; simpl option_map.
+    - rewrite (Hne se eq_refl). rewrite (parse_section_ok lay se Hl He). reflexivity.
+    - reflexivity.
+  Qed.
 End ResProofs.
